@@ -55,7 +55,7 @@ def _alarm(*_a):
     raise _Timeout()
 
 
-HARD_LIMIT_S = int(os.environ.get('VERIF_OB_LIMIT', '90'))
+HARD_LIMIT_S = int(os.environ.get('VERIF_OB_LIMIT', '300'))
 
 
 def _discharge_index(i):
